@@ -109,11 +109,13 @@ def expected_values(im):
     return np.ascontiguousarray(bits).view(np.float32).reshape(bits.shape[0], -1).copy().view(np.complex64)
 
 
-def build(seed, i, typ, lines, pixels, kind="memory"):
+def build(seed, i, typ, lines, pixels, kind="memory", fd=None):
     level = "1.5" if typ == "IU2" else "1.1"
     names = gen.product_names(level, pols=("HH",))
     rng_np = np.random.default_rng([seed, i])
     im = gen.minimal_image(rng_np, typ, lines, pixels, "random" if typ == "IU2" else "finite")
+    if fd:
+        im["fd"].update(fd)  # optional header fields (pixel range, ScanSAR burst description)
     # distinct, non-trivial row labels so that .sel() has something to get wrong
     for j, p in enumerate(im["prefix"]):
         p["sar_image_data_line_number"] = 10 + 3 * j
